@@ -73,6 +73,12 @@ def main(argv=None):
         traceback.print_exc()
         print(f"CHECKER-ERROR property={prop}")
         return 3
+    if args.tier == "thorough" and rc == 0 and not args.only and not os.environ.get("PYVC_REPO"):
+        # thorough tier: mutation sensitivity self-test of this property's contracts (scratch copies outside /repo and /verif)
+        try:
+            evidence["coverage"]["mutation_selftest"] = mutation_selftest(prop)
+        except Exception:  # noqa: BLE001
+            evidence["coverage"]["mutation_selftest"] = {"error": traceback.format_exc()[-800:]}
     evidence["wall_s"] = round(time.time() - t0, 2)
     if not args.only and not os.environ.get("PYVC_NO_EVIDENCE"):
         (ROOT / "evidence").mkdir(exist_ok=True)
@@ -323,6 +329,27 @@ def run_check(prop, info, tier, seed, only, verbose):
     if undecided:
         return 2, evidence
     return 0, evidence
+
+
+def mutation_selftest(prop):
+    """Apply each registered semantic mutant of the property to a scratch copy of the sources and require the quick check to report it."""
+    import concurrent.futures as cf
+
+    from tools.mutant_list import MUTANTS
+    from tools.mutants import run as run_mutant
+
+    ms = [m for m in MUTANTS if m[0] == prop]
+    out = {"total": len(ms), "caught": 0, "missed": [], "other": []}
+    with cf.ThreadPoolExecutor(max_workers=4) as ex:
+        for m, status, info in ex.map(run_mutant, ms):
+            if status == "caught":
+                out["caught"] += 1
+            elif status == "MISSED":
+                out["missed"].append(f"{m[1]}: {m[2][:80]}")
+                print(f"MUTANT-MISSED property={prop} {m[1]}: {m[2][:80]!r}")
+            else:
+                out["other"].append(f"{status}: {m[1]}: {m[2][:60]} {info[:120]}")
+    return out
 
 
 def do_replay(prop, info, path):
